@@ -246,6 +246,13 @@ func TestVerifC08(t *testing.T) {
 			}
 			sortSteps(c.Steps)
 		}
+		if i%14 == 11 || i%14 == 12 {
+			// the link watcher halts in the same instant (its context is the
+			// server's, so on a signal it closes every subscription while the tasks
+			// are being stopped): a closed subscription is not a link change
+			c.Steps = append(c.Steps, advStep{At: c.StopAt + time.Duration(i%2), Kind: "watchclose"})
+			sortSteps(c.Steps)
+		}
 		switch i % 10 {
 		case 3, 4: // the interface is not forwarding at all
 			c.Fwd = false
@@ -438,6 +445,37 @@ func TestVerifC09(t *testing.T) {
 				}
 			}
 		}
+		// a flood: thousands of invalid messages in a row (an off-link sender can
+		// deliver hop limits other than 255 at line rate).  Each is dropped, and
+		// dropping must not cost anything that accumulates: the reader comes back
+		// for the next message with a call stack no deeper than before.
+		for v, nflood := range []int{3000, 5000} {
+			c := &advCase{ID: fmt.Sprintf("flood/%d", nflood), Min: 20 * time.Second, Max: 30 * time.Second, Fwd: true, Terminate: true, Seed: time.Duration(v + 5)}
+			for j := 0; j < nflood; j++ {
+				c.Steps = append(c.Steps, advStep{At: 4*time.Second + time.Duration(j)*100*time.Microsecond, Kind: "msg", Msg: types[j%4], Src: []string{"fe80::bad:1", "::", "2001:db8:bad::1"}[j%3], Hop: []int{64, 1, 254, -1}[j%4]})
+			}
+			c.Steps = append(c.Steps, advStep{At: 6 * time.Second, Kind: "rs", Src: "fe80::900d:5"})
+			c.StopAt = 8 * time.Second
+			if r.Mine(c.ID) {
+				run(c)
+				// run() has been through this case; look at the stack depths again
+				res := advRun(t, c)
+				var depths []int64
+				for _, e := range res.ev {
+					if e.Kind == "read_wait" && e.Gen == 1 {
+						depths = append(depths, e.Val)
+					}
+				}
+				if len(depths) > nflood/2 {
+					early, late := depths[10], depths[len(depths)-2]
+					r.Max("reader_stack_depth_growth_over_flood", late-early)
+					if late-early > 16 {
+						r.Violation(c.ID, "reader-stack-grows", fmt.Sprintf("the reader's call stack was %d frames deep after 10 dropped messages and %d after %d: it grows with every invalid message and a flood will kill the daemon", early, late, len(depths)-2), map[string]any{"invalid_messages": nflood})
+					}
+					r.Count("flood_scenarios", 1)
+				}
+			}
+		}
 		// runs of k consecutive invalid messages, k beyond the retry budget
 		for k := 1; k <= 12; k++ {
 			for v := 0; v < 6; v++ {
@@ -570,6 +608,36 @@ func TestVerifC10(t *testing.T) {
 		case "link":
 			c.Steps = append(c.Steps, advStep{At: fl.at, Kind: "link"})
 			expect = "redial"
+		case "spacing":
+			// the fault arrives while a multicast RA is being held back for the
+			// minimum spacing behind a late transmission: the periodic RA of the 16 s
+			// tick is on the wire 5 s late, a solicitation from :: arrives meanwhile,
+			// its answer waits 3 s from the late transmission, and the link event or
+			// receive error falls into that wait
+			c.UnicastOnly = false
+			c.StallMC, c.StallFor = 3, 5*time.Second
+			fl.at = 16*time.Second + c.StallFor + time.Duration(1+(seed%2500))*vMs
+			c.Steps = []advStep{{At: 10 * time.Second, Kind: "rs", Src: "fe80::a:1"}, {At: 17 * time.Second, Kind: "rs", Src: "::"}}
+			if parts[1] == "link" {
+				c.Steps = append(c.Steps, advStep{At: fl.at, Kind: "link"})
+			} else {
+				c.Steps = append(c.Steps, advStep{At: fl.at, Kind: "readerr", Err: "syscall"})
+			}
+			expect = "redial"
+		case "stalledpeer":
+			// a transmit failure while another transmission of the same connection is
+			// stalled in the socket, and a burst of solicitations larger than the
+			// request queue arrives before the stalled one completes: the task must
+			// still be torn down and re-established once it does
+			c.UnicastOnly = false
+			c.StallMC, c.StallFor = 3, 8*time.Second
+			fl.at = 17 * time.Second
+			c.WriteErrKind, c.WriteErrAfter, c.WriteErrUnicast = "nobufs", fl.at, true
+			c.Steps = []advStep{{At: 10 * time.Second, Kind: "rs", Src: "fe80::a:1"}, {At: fl.at, Kind: "rs", Src: "fe80::a:2"}}
+			for q := 0; q < 17+int(seed%20); q++ {
+				c.Steps = append(c.Steps, advStep{At: fl.at + time.Second + time.Duration(q)*vMs, Kind: "rs", Src: fmt.Sprintf("fe80::b:%x", q+1)})
+			}
+			expect = "redial"
 		case "linkondial":
 			// the link changes right after the connection was established, before
 			// the task's watcher exists: the event is queued and must still tear the
@@ -582,6 +650,10 @@ func TestVerifC10(t *testing.T) {
 		// service after the fault (on the then-current connection)
 		c.Steps = append(c.Steps, advStep{At: fl.at + 3*time.Second, Kind: "rs", Src: "fe80::a:3"})
 		c.StopAt = fl.at + 6*time.Second
+		if c.StallMC > 0 {
+			// tearing the task down waits for the stalled transmission to complete
+			c.StopAt = 16*time.Second + c.StallFor + 8*time.Second
+		}
 		sortSteps(c.Steps)
 		r.Begin(id)
 		res := advRun(t, c)
@@ -622,6 +694,9 @@ func TestVerifC10(t *testing.T) {
 			}
 		}
 		budget := 4 * lat
+		if parts[0] == "stalledpeer" {
+			budget += 16*time.Second + c.StallFor - fl.at // until the stalled transmission has completed
+		}
 		switch expect {
 		case "redial":
 			if redialT == vNever {
@@ -734,7 +809,7 @@ func TestVerifC10(t *testing.T) {
 
 	kinds := []string{"read:syscall", "read:perm", "read:other", "read:eintr", "read:emfile", "read:op-netdown", "timeouts:1", "timeouts:2", "timeouts:3", "timeouts:4", "timeouts:5", "timeouts:6",
 		"timeoutsinv:1", "timeoutsinv:3", "timeoutsinv:4", "timeoutsinv:5",
-		"linkondial", "write:nobufs", "write:perm", "write:other", "write:op-nobufs", "write:op-acces", "writepending:nobufs", "writepending:other", "writeall:nobufs", "writeall:perm", "link", "watchclose"}
+		"linkondial", "write:nobufs", "write:perm", "write:other", "write:op-nobufs", "write:op-acces", "writepending:nobufs", "writepending:other", "writeall:nobufs", "writeall:perm", "link", "watchclose", "spacing:link", "spacing:read", "stalledpeer:x"}
 	// the same read-side faults against a Monitor task
 	mreps := r.Pick(4, 150)
 	for _, k := range []string{"read:syscall", "read:perm", "read:other", "read:eintr", "read:emfile", "timeouts:1", "timeouts:4", "timeouts:5", "timeouts:6", "link", "linkondial", "watchclose"} {
